@@ -212,7 +212,7 @@ def pipe_part(ctx, drv, prop):
         if b.ok or b.violated != want:
             raise vf.MachineryError("sensitivity run %s did not report %s (got %s)" % (cfg, want, b.violated))
     import ppaths
-    n = (2000 if prop == "C05" else 900) if ctx.quick else 30000
+    n = (2000 if prop == "C05" else 900) if ctx.quick else 12000
     total_steps = 0
     for cfg, maxid, maxstream in (("PipeStepReplay", 2, 2), ("PipeStepReplay_s1", 1, 1)):
         states, init, paths = ppaths.merge(ppaths.simulate_many(n if maxstream > 1 else n // 3, 80, ctx.seed, cfg=cfg, timeout=3000))
